@@ -1590,6 +1590,23 @@ package kafka
 //@ func dontExpectEOF
 //@   ensures err != nil ==> result != nil
 //@   ensures err == nil ==> result == nil
+//@   assume io.ErrUnexpectedEOF is a sentinel distinct from io.EOF whose chain does not contain io.EOF
+//@   trust-ensures spec.is(err, io.EOF) ==> !spec.is(result, io.EOF)
+//@   ensures !spec.is(err, io.EOF) ==> !spec.is(result, io.EOF)
+// C17: a Batch handed out by ReadBatchWith never carries io.EOF as its error - EOF is what a Batch reports at its regular
+// end, so a response cut before the batch could even be set up (inside the size prefix, the header, the first message
+// set header) must surface as another error (io.ErrUnexpectedEOF), or the caller would take the cut for an empty batch.
+// Checked for every return up to and including the failure of waitResponse (option upto); the last return, after the
+// fetch response header was read, stores a pointer to c.rbuf in the message set reader, which the heap model does not
+// support - it is outside this contract.
+//@ func (*Conn).ReadBatchWith
+//@   option noframe
+//@   option only post
+//@   option upto "var throttle int32"
+//@   modifies heap
+//@   assume the fmt.Errorf formats of the argument checks have no %w verb: the errors they build wrap nothing, io.EOF included
+//@   callsite fmt.Errorf ensures result != nil && !spec.is(result, io.EOF)
+//@   ensures result != nil && !spec.is(result.err, io.EOF)
 //@ func (*Batch).readMessage
 //@   requires batch.msgs != nil
 //@   option noframe
